@@ -357,6 +357,38 @@ func (ch c11) noCert(c *core.Ctx, env *hs.Env, s c15session, cs map[string]any) 
 	ref, _ := c15run(env, s, nil)
 	sess := &hs.Sess{Progs: s.Progs}
 	conn := env.Dial(sess)
+	pipelined := len(s.Steps)%2 == 0
+	if pipelined {
+		// the client does not wait for the answer: SSLRequest and startup packet in one segment
+		conn.Send(append(pg.SSLRequest(), pg.Startup([][2]string{{"user", s.User}})...))
+		closed, _ := conn.Quiesce()
+		out := conn.Out()
+		c.Eval("nocert pipelined "+fmt.Sprint(s.Kinds), true)
+		if closed || len(out) == 0 || out[0] != 'N' {
+			c.Violate("ssl-reply", "SSLRequest without certificates not answered with N (pipelined startup)", fmt.Sprintf("closed=%v %q", closed, trim(string(out), 40)), cs)
+			return
+		}
+		c.Count("no_cert_replies_N", 1)
+		msgs, err := parseAll(out[1:])
+		if err != nil || normStartup(msgs) != ref.Startup {
+			c.Violate("plaintext-after-N", "a startup packet pipelined behind the SSLRequest is not served after N", fmt.Sprintf("%v %q vs %q", err, normStartup(msgs), ref.Startup), cs)
+			return
+		}
+		cl := hs.NewClient(conn)
+		cl.Wait()
+		for i, in := range s.Steps {
+			o, closed := cl.Step(in)
+			if i >= len(ref.Outs) || !bytes.Equal(o, ref.Outs[i]) {
+				c.Violate("plaintext-after-N", "reply after N differs from a plain session (pipelined startup)", fmt.Sprintf("step %d: %s", i, trim(replyKinds(o), 200)), cs)
+				return
+			}
+			if closed {
+				break
+			}
+		}
+		cl.Finish()
+		return
+	}
 	conn.Send(pg.SSLRequest())
 	conn.Quiesce()
 	c.Eval("nocert "+fmt.Sprint(s.Kinds), true)
